@@ -6,8 +6,9 @@ LEVEL = "proof"
 ASSUMPTIONS = [
     "the Coq models of tarjan / kosaraju / symm_seq / symm_par / sort_by_size correspond to the Rust code: checked on "
     "every run by exact equality of the component arrays and counts (numbering included)",
-    "Tarjan's model is proved correct only for all digraphs on at most 4 nodes; beyond that its outputs (and the "
-    "implementation's) are decided case by case by the proved checker check_scc",
+    "Tarjan's model (event handler with decreasing timestamps, lead bit stack, early exit) is proved correct for every "
+    "well-formed graph (C15_tarjan, Algo/SccTarjan.v); the implementation's outputs are additionally decided case by "
+    "case by the proved checker check_scc",
     "graphs with more than 150 nodes ('big' mode) are too large for the proved checker: they are covered by the exact "
     "model/implementation comparison and by unproved cross checks (dense ids, Tarjan partition = Kosaraju partition)",
 ]
